@@ -6,6 +6,8 @@ class C09(TieCheck):
     area = "Route"
     props = ["Props_C09.v", "Props_C09_host.v", "Props_C09_guard.v", "Props_C09_e2e.v"]
     coq_targets = ["Corr.vo"]
+    gentie = "C09"
+    extra_props = [("Compose", "Props_Compose2.v")]
     harness = "c01"
     extra_trust = ["model M1: coq/Route/Lookup.v lbd/lookup_by_domain/roots_lookup; specification: Spec.spec_lookup (whole-host match, path-only fallback)",
                    "port / trailing-dot stripping is netutil.StripHostPort run by the harness (oracle input to model and spec)"]
